@@ -74,10 +74,11 @@ def check(s):
     if cases != {True, False}:
         raise AnalysisError(f"{con}: expected keyed and key-less cases")
     # ---------------------------------------------------------------- C09.2
+    bgather = s.builder(inline={"gather", "shape"})
     for cls, meth, src_name in (("AbstractBuffer", "gather", "self"), ("AbstractBuffer", "batches", "flat"), ("RolloutBuffer", "sample", "flat")):
         con2 = f"{cls}.{meth}"
         loc2 = s.loc(cls, meth)
-        for p in live(s.paths(b, cls, meth)):
+        for p in live(s.paths(b if meth == "gather" else bgather, cls, meth)):
             ok, idx, src, det = is_take_map(b, nz, p.ret, None)
             s.ob("C09.2", con2, ok, "result == jax.tree.map(lambda x: take(x, I, axis=0), source) with one leaf-independent index node I", loc2,
                  key="take-map", detail=det, necessary_for="each minibatch row is one collected sample with all of its fields still belonging together")
@@ -95,7 +96,13 @@ def check(s):
                 flat = ("call", ("attr", self_, "flatten_axes"), (("param", "batch_axes"),), ())
                 env = s.refprog(b, "idx = jr.choice(key, flat.rewards.shape[0], shape=(batch_size,), replace=False)",
                                 {"flat": flat, "key": ("param", "key"), "batch_size": ("param", "batch_size")})
-                s.ob("C09.2", con2, src == flat and nz.canon(idx) == nz.canon(env["idx"]),
+                env2 = s.refprog(b, "idx = jr.choice(key, flat.shape[0], shape=(batch_size,), replace=False)",
+                                 {"flat": flat, "key": ("param", "key"), "batch_size": ("param", "batch_size")})
+                # `flat.shape` is `flat.rewards.shape` by the buffer's own property (checked just below)
+                shp = live(s.paths(b, "RolloutBuffer", "shape"))
+                s.ob("C09.2", "RolloutBuffer.shape", len(shp) == 1 and shp[0].ret == ("attr", ("attr", self_, "rewards"), "shape"), "RolloutBuffer.shape is rewards.shape (one entry per sample)",
+                     s.loc("RolloutBuffer", "shape"), key="shape-property", detail=show(shp[0].ret if shp else NONE, maxlen=80))
+                s.ob("C09.2", con2, src == flat and nz.canon(idx) in (nz.canon(env["idx"]), nz.canon(env2["idx"])),
                      "RolloutBuffer.sample: choice(key, total, (batch_size,), replace=False) over the flattened buffer it indexes", loc2,
                      key="sample-args", detail=f"{show(src, maxlen=120)} / {show(idx, maxlen=200)}")
     # ---------------------------------------------------------------- C09.3
@@ -118,9 +125,10 @@ def check(s):
         s.ob("C09.4", con4, sc[2] == ("tuple", (("param", "policy"), ("param", "opt_state"))), "the carry is (policy, opt_state)", loc4, key="epoch-carry",
              detail=show(sc[2], maxlen=100))
         body = sc[1]
-        if isinstance(body, Closure):
+        if body is not None:
+            # the scan body may be a local function, a functools.partial of a (new) method, or a bound method
             carry = ("tuple", (("param", "$pol"), ("param", "$opt")))
-            out = b4.apply(body, (carry, ("param", "$rows")), ())
+            out = b4.apply_any(body, (carry, ("param", "$rows")), ())
             tb = [x for x in walk(out) if isinstance(x, tuple) and x and x[0] == "call" and x[1] == ("attr", self_, "train_batch")]
             okb = False
             if len(tb) == 1:
